@@ -10,7 +10,8 @@ import shutil
 from harness import common, rules
 
 POOL = ["a", "ab", "a_b", "aa", "b", "ba", "c", "x1", "_a", "A"]
-EXTERNALS = ["os", "logging", "logging.handlers", "xml.etree.ElementTree", "loggingx", "handlers", "ab", "a", "proj2", "projx.y", "os.path"]
+EXTERNALS = ["os", "logging", "logging.handlers", "xml.etree.ElementTree", "loggingx", "handlers", "ab", "a", "proj2", "projx.y", "os.path",
+             "logging_handlers", "loggingXhandlers.api", "os_path", "xml_etree.x"]     # look-alikes of dotted names (the dot read as "any character")
 
 
 # --------------------------------------------------------------------------
@@ -29,8 +30,8 @@ def gen_tree(rng, max_depth=4, root=None, with_init=True, nonpy=True):
     if big:
         pool = pool + ["m%d" % i for i in range(12)]
     for _ in range(rng.randint(6, 14) if big else rng.randint(1, 5)):
-        p = rng.choice(dirs)
-        if len(p) < max_depth:
+        p = dirs[-1] if (big and rng.random() < 0.6) else rng.choice(dirs)      # larger projects also get long directory chains
+        if len(p) < (max_depth + 4 if big else max_depth):
             d = p + (rng.choice(pool),)
             if d not in dirs and d not in files:
                 dirs.append(d)
